@@ -331,6 +331,8 @@ class Oracle:
             if not o["ok"] and want:
                 return "claims:rejected-match", "CheckClaimSet rejected matching claims"
             return None
+        if op == "jwttime" and c.get("note") == "wrap":
+            return None  # beyond |sec| <= 2^62 the property has no opinion; the model pins the behaviour
         if op == "jwttime":
             want = jwt_time_ok(c["c"], int(c["now"]))
             if o["ok"] != want:
@@ -402,7 +404,8 @@ class Oracle:
             if accepted and not key_ok:
                 return ("jwt-rs:accepted-without-valid-key",
                         "token accepted though the key its header names does not verify it or is not valid then")
-            if (mu["class"] == "kidmatrix" and not accepted and want_time and keys and keys[0]["parse"]
+            in_range = all(abs(int(k[f])) <= 2 ** 62 for k in keys for f in ("nvb", "nva"))
+            if (mu["class"] == "kidmatrix" and in_range and not accepted and want_time and keys and keys[0]["parse"]
                     and keys[0]["sigok"] and keys[0]["type"] == "7373682d727361"
                     and (int(keys[0]["nvb"]) <= 0 or now >= int(keys[0]["nvb"]) * NS)
                     and now <= int(keys[0]["nva"]) * NS):
